@@ -138,6 +138,11 @@ def prepare_evo_aspirate_dispense_parameters(
     wells_list = list(np.atleast_1d(wells).flatten("F"))
     if not len(wells_list) == len(tips):
         raise ValueError(f"Invalid wells: wells and tips need to have the same length.")
+    if any(str(w1) >= str(w2) for w1, w2 in zip(wells_list[:-1], wells_list[1:])):
+        # The EVO serves the selected wells in ascending order with the selected tips in ascending order,
+        # and the volumes are assigned to the tips in the order given. Any other order of the wells
+        # would pipette volumes that differ from the ones that were passed (and tracked) for each well.
+        raise ValueError(f"Invalid wells: wells must be unique and in ascending order, but were {wells_list}.")
     if labware_position is None:
         raise ValueError("Missing required parameter: position")
     grid, site = labware_position
